@@ -632,12 +632,70 @@ def check_schedule(rep, prog):
         pat = 'for ii, gamma in enumerate(self.gammas):\n    for jj, gamma2 in enumerate(self.gammas):\n        if this_eval % split_jobs == this_job_id:\n            ' + what
         rep.ob('R-IDX', 'Cache2D job payload %s' % fn.name, _has(ast.unparse(fn), pat), what, m2.rel, fn.lineno, what='job (ii, jj) evaluates (gamma_ii, gamma_jj)')
     mg = prog.func(C2, 'Cache2D.merge')
-    t = ast.unparse(mg)
-    okm = 'new_cache = copy.deepcopy(caches[0])' in t and "raise ValueError('Merged cached conflicts with current.')" in t and 'new_cache.spectra[ii][jj] is not None and (not np.all(new_cache.spectra[ii][jj] == fs))' in t
-    loops = [n for n in mg.body if isinstance(n, ast.For)]
-    ret = [n for n in mg.body if isinstance(n, ast.Return)]
-    okmiss = len(loops) == 2 and 'if fs is None' in ast.unparse(loops[1]) and any(isinstance(x, ast.Raise) for x in ast.walk(loops[1])) and bool(ret) and mg.body.index(loops[1]) < mg.body.index(ret[0])
-    rep.ob('R-DOM', 'Cache2D.merge', okm and okmiss, 'conflicting entries raise; a complete scan for missing entries precedes the return; the first cache is deep-copied', m2.rel, mg.lineno,
+    # merge executed abstractly on small scenarios (2 x 2 grid of entries, two or three partial caches): complete and disjoint pieces
+    # merge to the union; a missing entry raises; an entry present twice raises unless both copies are equal; the inputs keep their
+    # entries (the first cache is copied, not updated in place)
+    from sa import miniexec as mx
+    from sa import alpha as _alpha
+    known_ = _alpha.load_table().get('__params__', {}).get(m2.rel)
+    known_ = set(known_) if known_ is not None else None
+
+    def run_merge(grids):
+        caches = [mx.Sym('cache%d' % k_, truth=True, attrs={'spectra': [list(r_) for r_ in g_]}) for k_, g_ in enumerate(grids)]
+
+        def hook(nm, args, kwargs):
+            if nm == 'copy.deepcopy' and args and isinstance(args[0], mx.Sym) and 'spectra' in args[0].attrs:
+                return mx.Sym(args[0].text + "'", truth=True, attrs={'spectra': [list(r_) for r_ in args[0].attrs['spectra']]})
+            if nm in ('np.all', 'numpy.all') and args and isinstance(args[0], mx.Sym) and args[0].text.startswith('(') and ' == ' in args[0].text:
+                a_, b_ = args[0].text[1:-1].split(' == ', 1)
+                return a_ == b_
+            if nm in ('np.array_equal', 'numpy.array_equal') and len(args) == 2:
+                return mx.show(args[0]) == mx.show(args[1])
+            if nm in ('np.array', 'numpy.array', 'np.asarray', 'numpy.asarray') and args and isinstance(args[0], list):
+                return args[0]
+            return NotImplemented
+        it = mx.Interp(prog, m2, call_hook=hook, known_functions=known_)
+        snapshot = [[list(r_) for r_ in c_.attrs['spectra']] for c_ in caches]
+        paths = it.run(mg, {'caches': caches})
+        # run() copies symbols per path: the copies are what the function saw; compare the originals' entries after the run
+        return paths, caches, snapshot
+    X = lambda t_: mx.Sym(t_, truth=True)
+    N = None
+    scenarios = [
+        ('complete, disjoint', [[[X('a'), N], [N, X('d')]], [[N, X('b')], [X('c'), N]]], 'ok', [['a', 'b'], ['c', 'd']]),
+        ('three pieces', [[[X('a'), N], [N, N]], [[N, X('b')], [N, N]], [[N, N], [X('c'), X('d')]]], 'ok', [['a', 'b'], ['c', 'd']]),
+        ('missing entry', [[[X('a'), N], [N, X('d')]], [[N, X('b')], [N, N]]], 'raise', None),
+        ('missing entry in the first row', [[[N, N], [X('c'), X('d')]], [[N, X('b')], [N, N]]], 'raise', None),
+        ('conflicting copies', [[[X('a'), X('b')], [X('c'), X('d')]], [[X('e'), N], [N, N]]], 'raise', None),
+        ('equal copies', [[[X('a'), X('b')], [X('c'), X('d')]], [[X('a'), N], [N, X('d')]]], 'ok', [['a', 'b'], ['c', 'd']]),
+        ('single complete cache', [[[X('a'), X('b')], [X('c'), X('d')]]], 'ok', [['a', 'b'], ['c', 'd']]),
+        ('conflict between two later pieces', [[[N, X('b')], [X('c'), X('d')]], [[X('e'), N], [N, N]], [[X('f'), N], [N, N]]], 'raise', None),
+        ('equal copies in two later pieces', [[[N, X('b')], [X('c'), X('d')]], [[X('a'), N], [N, N]], [[X('a'), N], [N, N]]], 'ok', [['a', 'b'], ['c', 'd']]),
+        ('conflict in the last entry', [[[X('a'), X('b')], [X('c'), N]], [[N, N], [N, X('d')]], [[N, N], [N, X('g')]]], 'raise', None),
+    ]
+    badm = []
+    try:
+        for label, grids, want, union in scenarios:
+            paths, caches, snap = run_merge(grids)
+            for outcome, events, dec in paths:
+                if want == 'raise':
+                    if outcome[0] != 'raise':
+                        badm.append('%s: accepted' % label)
+                    continue
+                if outcome[0] != 'return':
+                    badm.append('%s: refused (%s)' % (label, outcome[1]))
+                    continue
+                res = outcome[1]
+                sp_ = res.attrs.get('spectra') if isinstance(res, mx.Sym) else None
+                got = [[mx.show(x) for x in r_] for r_ in sp_] if isinstance(sp_, list) else None
+                if got != union:
+                    badm.append('%s: merged entries %s' % (label, got))
+                if isinstance(res, mx.Sym) and any(res is c_ for c_ in caches):
+                    badm.append('%s: the first input is returned, not a copy' % label)
+    except mx.Undecidable as e:
+        raise AnalysisError('Cache2D.merge is not recognised: %s' % e)
+    okm, okmiss = not badm, True
+    rep.ob('R-DOM', 'Cache2D.merge', okm and okmiss, '; '.join(badm[:3]) or 'conflicting entries raise; missing entries raise; complete disjoint pieces merge to their union (10 scenarios executed abstractly)', m2.rel, mg.lineno,
            what='conflicts and missing jobs are reported, inputs are not modified')
 
 
